@@ -11,6 +11,8 @@
                                       kind 1: fn j  — dst = F_j(arg)   (F_j returns its local v1)
                                       kind 2: pure yield statement `yield(site=callee)` (absent from P)
                                       kind 3: dfn j — r1, r2 = D_j(arg); println("D", id, r1, r2); dst = r1
+                                      kind 4: call of a local closure whose body is action `callee` (a call through a
+                                              function-typed variable: flattened, never suspends)
      fn   := `,`-separated prefix tokens of the body (see `parseStmt`)
      optional 5th/6th sections: <finfo>/<dops>
      finfo := kind.named.nres per function; kind 1 = a function with deferred calls ("D function"): its results are the
@@ -24,11 +26,13 @@
                               followed by ` #susp=<n>`
      skel <prog>            → per function `|`-separated skeleton of `flatten body` (`c<N>` `j<N>` `r<N>` `x`)
      blk  <intr> <edges> <seed>  → sorted blocking set computed by the propagation loop under a seed-permuted order
+     box  <blocking> <items>     → `GV.Escape.boxed` for each `site.captured` item
 -/
 import GV.Model.Ctrl
 import GV.Model.Flat
 import GV.Model.Blocking
 import GV.Model.RetDefer
+import GV.Model.Escape
 
 namespace GV.Driver.C02
 open GV.Ctrl GV.Flat
@@ -204,6 +208,7 @@ def doCall (P : Prog) (run : FnRun) (f : Nat) (s : St) : St :=
     match run d.callee (s.get d.arg) s.glob s.out with
     | some (r, _, g, o, _) => ({ s with glob := g, out := o }).set d.dst r
     | none => { s with err := true }
+  | 4 => doAct P d.callee s
   | 3 =>
     match run d.callee (s.get d.arg) s.glob s.out with
     | some (r1, r2, g, o, _) => (({ s with glob := g, out := o }).print s!"D {f} {showVal r1} {showVal r2}").set d.dst r1
@@ -217,6 +222,7 @@ def suspOf (P : Prog) (run : FnRun) (en : Nat → Bool) (f : Nat) (s : St) : Nat
   | 1 | 3 => match run d.callee (s.get d.arg) s.glob s.out with
     | some (_, _, _, _, n) => n
     | none => 0
+  | 4 => 0
   | _ => if en d.callee then 1 else 0
 
 /-- primitive actions: ordinary table actions; 1000+f = non-blocking call site f; 2000+d = `defer <closure d>`;
@@ -345,6 +351,15 @@ def handle : List String → String
     let b := GV.Blocking.blocking (permOrd (seed.toNat?.getD 0)) g
     let l := sortDedup b
     if l.isEmpty then "-" else ",".intercalate (l.map toString)
+  | ["box", blocking, items] =>
+    -- items: `,`-separated `site.captured` (site 0 param, 1 function level, 2 loop header, 3 loop body) → 0/1 per item
+    let bl := blocking == "1"
+    let site : Nat → GV.Escape.Site := fun n => match n with | 0 => .param | 1 => .funcLevel | 2 => .loopHeader | _ => .loopBody
+    let rs := (if items == "-" then [] else items.splitOn ",").map fun it =>
+      match nums it with
+      | [st, cap] => if GV.Escape.boxed bl (site st) (cap == 1) then "1" else "0"
+      | _ => "?"
+    if rs.isEmpty then "-" else ",".intercalate rs
   | _ => "bad-op"
 
 end GV.Driver.C02
